@@ -15,6 +15,7 @@ VIEW view
 INVARIANT TypeOK
 INVARIANT EnvCovers
 INVARIANT Transparent
+INVARIANT RootKeyDecrypts
 INVARIANT CacheWellFormed
 INVARIANT ObtainedIsCached
 PROPERTY NoRepeatRpc
